@@ -13,7 +13,7 @@
   stored matrix: row `i` is the scatter of the entries at positions
   `indptr[i] ..< indptr[i+1]`; `slice D r0 r1` — Python `D[r0:r1]`.
 -/
-import CTM.Lemmas.SparseBatch
+import CTM.Lemmas.SparseDisjoint
 
 namespace CTM.C05
 open CTM.Chunking CTM.Sparse
@@ -188,5 +188,60 @@ theorem get_batch_dense {α} (zero : α) (D : Dense α) (nCols : Nat) (rows : Li
 
 example : denseGetBatch 0 [[1, 0, 2], [0, 3, 0], [4, 0, 5]] 3 [2, 0]
     = .ok [[4, 0, 5], [1, 0, 2]] := rfl
+
+/-- **`get_batch` (CSR)** — *"sorted, merged row ranges loaded then un-sorted"*:
+`_load_disjoint_csr` argsorts the request, merges it into contiguous ranges
+(`merge_index_list`), loads each range with `_load_sparse`, concatenates the
+pieces (`merge_csr`) and un-sorts; `get_batch` then turns the result into a
+dense block.  For every well-formed CSR matrix and every non-empty row list
+without repeats, all in range, *in any order*, row `i` of the result is row
+`rows[i]` of the stored matrix. -/
+theorem get_batch_csr {α} (zero : α) (M : Mat α) (nRows nCols : Nat)
+    (w : WFptr M.indptr nRows M.indices.length) (hlen : M.data.length = M.indices.length)
+    (hc : ∀ x ∈ M.indices, x < nCols)
+    (rows : List Nat) (hne : rows ≠ []) (hn : rows.Nodup) (hr : ∀ r ∈ rows, r < nRows) :
+    csrGetBatch zero M nCols rows
+      = .ok (rows.map fun r => (toDense zero M nRows nCols).getD r []) :=
+  csrGetBatch_ok zero M nRows nCols w hlen hc rows hne hn hr
+
+example : csrGetBatch 0 M0 3 [2, 0] = .ok [[4, 0, 5], [1, 0, 2]] := rfl
+
+/-- the sparse form of the same request (`get_batch(sparse=True)`,
+`amalgamate_h5ad`): the arrays returned by `_load_disjoint_csr` are exactly the
+requested rows' stored slices one after the other, with the pointer array of
+their running lengths. -/
+theorem load_disjoint {α} (M : Mat α) (nRows : Nat)
+    (w : WFptr M.indptr nRows M.indices.length) (hlen : M.data.length = M.indices.length)
+    (rows : List Nat) (hne : rows ≠ []) (hn : rows.Nodup) (hr : ∀ r ∈ rows, r < nRows) :
+    loadDisjoint M rows = .ok (ofSegs (rows.map (segOf M))) :=
+  loadDisjoint_ok M nRows w hlen rows hne hn hr
+
+example : loadDisjoint M0 [2, 0] = .ok ⟨[0, 2, 4], [0, 2, 0, 2], [4, 5, 1, 2]⟩ := rfl
+
+/-- repeated rows are outside the property's guard and are *rejected* by the
+dense iterator, never answered wrongly (h5py: "Indexing elements must be in
+increasing order"). -/
+theorem get_batch_dense_rejects_repeats {α} (zero : α) (D : Dense α) (nCols : Nat)
+    (rows : List Nat) (hne : rows ≠ []) (hrep : ¬ rows.Nodup) :
+    denseGetBatch zero D nCols rows = .error .badRows := by
+  unfold denseGetBatch
+  have h1 : rows.isEmpty = false := by
+    cases rows with
+    | nil => exact absurd rfl hne
+    | cons _ _ => rfl
+  have h2 : strictInc ((argsort rows).map (rows.getD · 0)) = false := by
+    cases h : strictInc ((argsort rows).map (rows.getD · 0)) with
+    | false => rfl
+    | true =>
+      exfalso
+      apply hrep
+      have hp := pairwise_of_strictInc _ h
+      have hnd : ((argsort rows).map (rows.getD · 0)).Nodup := by
+        apply List.Pairwise.imp _ hp
+        intro a b hab; omega
+      exact (sortedRows_perm rows).nodup_iff.mp hnd
+  simp only [h1, h2, Bool.false_eq_true, if_false, Bool.not_false, if_true]
+
+example : denseGetBatch 0 [[1], [2]] 1 [1, 1] = .error .badRows := rfl
 
 end CTM.C05
